@@ -70,6 +70,25 @@ def make_work(rng, tier):
                         runs.append((q, {"partitions": rng.choice([1, 2]), "batch_size": bs, "enable_hash_joins": hj}))
         work.append({"id": "c03-nlj-%d" % i, "tables": tables, "runs": runs, "mode": "det", "det_partitions": 1,
                      "sched": {"kind": "fifo", "seed": 1}})
+        # same idea for the extra (non-equality) conditions of a hash join: an equality plus a comparison whose
+        # operands tie on some pairs, hash join vs nested loop
+        cols2 = [("c0", "i32"), ("c1", "i32")]
+        t2a = [["I%d" % rng.choice([1, 2]), "I%d" % rng.choice([10, 20, 30])] for _ in range(6)]
+        t2b = [["I%d" % rng.choice([1, 2]), "I%d" % rng.choice([10, 20, 30])] for _ in range(6)]
+        tables2 = [("t0", cols2, t2a), ("t1", cols2, t2b)]
+        runs2 = []
+        for kind in ("inner", "left"):
+            for op, sym in (("ge", ">="), ("le", "<="), ("gt", ">"), ("lt", "<"), ("ne", "<>")):
+                for flip in (False, True):
+                    c = "(x1.c1 %s x2.c1)" % sym if not flip else "(x2.c1 %s x1.c1)" % sym
+                    cx = "(cmp %s (col 0 1) (col 0 3))" % op if not flip else "(cmp %s (col 0 3) (col 0 1))" % op
+                    sql = "SELECT x1.c0 AS r0, x1.c1 AS r1, x2.c1 AS r2 FROM t0 AS x1 %s JOIN t1 AS x2 ON ((x1.c0 = x2.c0) AND %s)" % (kind.upper(), c)
+                    sx = "(select (join %s (fq (table 0)) (fq (table 1)) (and (cmp eq (col 0 0) (col 0 2)) %s) 2 2) - - - ((col 0 0) (col 0 1) (col 0 3)) 0)" % (kind, cx)
+                    q = sqlgen.Q(sql, sx, ["i32", "i32", "i32"], ["r0", "r1", "r2"], {"join_" + kind, "hash_extra_cond"})
+                    for hj in (False, True):
+                        runs2.append((q, {"partitions": rng.choice([1, 2]), "batch_size": rng.choice([2, 2048]), "enable_hash_joins": hj}))
+        work.append({"id": "c03-hjx-%d" % i, "tables": tables2, "runs": runs2, "mode": "det", "det_partitions": 1,
+                     "sched": {"kind": "fifo", "seed": 1}})
     return work
 
 
